@@ -63,7 +63,7 @@ RULE = ("case kind by index mod 8: 0-3 a random mixed circuit on <= 4 wires "
         "6 a pure quantum circuit; 7 single Measure/Encode/Discard/MixedState "
         "variants and Born-rule set-ups on a random state.  Non-trivial = at "
         "least 3 boxes; distinct by the repr of the circuit(s).")
-SIZES = {"quick": (16, 50), "thorough": (64, 256)}
+SIZES = {"quick": (16, 48), "thorough": (64, 256)}
 TIMEOUT = {"quick": 600, "thorough": 5400}
 COVER = {
     "discopy.quantum.cqmap:Functor._ob": 0.8,
@@ -81,19 +81,19 @@ COVER = {
 }
 MIN_EVALS = {
     "quick": {"superoperator-equals-cq_sim": 400, "doubling": 60,
-              "dagger-evaluates-to-adjoint": 180, "discard-is-marginal": 170,
-              "adjoint-measure-encode": 100, "adjoint-discard-mixedstate": 300,
-              "born-rule": 250, "born-marginal": 25, "trace-preserving": 90,
+              "dagger-evaluates-to-adjoint": 200, "discard-is-marginal": 180,
+              "adjoint-measure-encode": 90, "adjoint-discard-mixedstate": 250,
+              "born-rule": 280, "born-marginal": 25, "trace-preserving": 90,
               "get_counts-equals-evaluation": 150,
-              "measure-equals-evaluation": 90, "default-route": 350},
+              "measure-equals-evaluation": 85, "default-route": 380},
     "thorough": {"superoperator-equals-cq_sim": 8000, "doubling": 1200,
-                 "dagger-evaluates-to-adjoint": 3500,
-                 "discard-is-marginal": 3300,
-                 "adjoint-measure-encode": 2000,
-                 "adjoint-discard-mixedstate": 6000, "born-rule": 5000,
+                 "dagger-evaluates-to-adjoint": 4000,
+                 "discard-is-marginal": 3600,
+                 "adjoint-measure-encode": 1800,
+                 "adjoint-discard-mixedstate": 5000, "born-rule": 5600,
                  "born-marginal": 500, "trace-preserving": 1800,
                  "get_counts-equals-evaluation": 3000,
-                 "measure-equals-evaluation": 1800, "default-route": 7000}}
+                 "measure-equals-evaluation": 1700, "default-route": 7600}}
 L1 = False     # CQMap.tensor builds ~10^3 small diagrams per evaluation; the hook
                # would take 40 % of the time of a check whose subject is numeric
 ASSUMPTIONS = [
